@@ -330,7 +330,11 @@ def shrink(prop, case, bucket, time_budget):
     simp = getattr(prop, "simplifications", None)
     tried = 0
 
+    reset = getattr(prop, "reset", None)
+
     def fails(c):
+        if reset is not None:
+            reset()
         res, err = _safe_run(prop, c)
         if err is not None or res is None or res.excluded:
             return False
